@@ -22,13 +22,6 @@ set_option linter.unusedSectionVars false
 
 variable {α : Type} [Inhabited α] [LinearOrder α] [OfNat α 0]
 
-theorem parents_below (T : Tables α) (N : Nat) (h : nodesBelowB T N = true) :
-    ∀ e, e < T.numEdges → T.par e < N := by
-  intro e he
-  simp only [nodesBelowB, List.all_eq_true, List.mem_range, Bool.and_eq_true,
-    decide_eq_true_eq] at h
-  exact (h e he).1
-
 /-- **The sweep detector is exact, for every mask.**  On valid tables `_contains_unary_nodes`
 terminates, and it returns `True` exactly when at some position some unmasked node has exactly one
 child in the local tree.  (With `mask` = the sample nodes this is the `variational_gamma` clause of
